@@ -18,6 +18,40 @@ import OnosVerif.Proofs.ValueFloat
 namespace OnosVerif.Props.C17
 open OnosVerif.Value
 
+/-! ## Facts regenerated from the Go sources
+
+`OnosVerif/Generated/Facts.lean` is rewritten by the translator (`harness/cmd/extract/c17.go`) on
+every run; the twin is driven by the v2 facts.  These lemmas pin what the theorems below rely on. -/
+
+/-- The v3 value and tree files have the same decision structure as the v2 files (one twin
+    serves both while that stays true). -/
+theorem C17_fact_v3_same_as_v2 :
+    Generated.leafListChainV3 = Generated.leafListChainV2 ∧
+    Generated.defaultWidthsV3 = Generated.defaultWidthsV2 ∧
+    Generated.leafValueTableV3 = Generated.leafValueTableV2 := by decide
+
+/-- What `handleLeafValue` stores per type, under RFC 7951 and otherwise (accessor or local):
+    int/uint `String()` when `width > 32` else `Int()`/`Uint()`; decimal `String()` (else
+    `Float()`); float `String()` (else `Float32()`); bytes `ByteArray()`; the leaf-lists their
+    `List()` — decimals `ListFloat()` — and int/uint lists a string list when `width > 32`. -/
+theorem C17_fact_leafValueTable :
+    Generated.leafValueTableV2 =
+      [("EMPTY", "", 0, "", ""), ("STRING", "", 0, "String", "String"), ("INT", ">", 32, "String", "Int"),
+       ("UINT", ">", 32, "String", "Uint"), ("DECIMAL", "", 0, "String", "Float"),
+       ("FLOAT", "", 0, "String", "Float32"), ("BOOL", "", 0, "Bool", "Bool"),
+       ("BYTES", "", 0, "ByteArray", "ByteArray"), ("LEAFLIST_STRING", "", 0, "List", "List"),
+       ("LEAFLIST_INT", ">", 32, "asStrList", "leafList"), ("LEAFLIST_UINT", ">", 32, "asStrList", "leafList"),
+       ("LEAFLIST_BOOL", "", 0, "List", "List"), ("LEAFLIST_DECIMAL", "", 0, "ListFloat", "ListFloat"),
+       ("LEAFLIST_FLOAT", "", 0, "List", "List"), ("LEAFLIST_BYTES", "", 0, "List", "List")] := by decide
+
+/-- `handleLeafList` looks at its lists in the order string, int, uint, bool, bytes, decimal,
+    float, each building its own leaf-list type; widths default to 32. -/
+theorem C17_fact_leafList_chain_and_defaults :
+    leafListChain = some [(.strs, .strs), (.ints, .ints), (.uints, .uints), (.bools, .bools),
+      (.bytess, .bytess), (.digits, .digits), (.floats, .floats)] ∧
+    defaultWidth "intWidth" = 32 ∧ defaultWidth "uintWidth" = 32 ∧ defaultWidth "width" = 32 :=
+  ⟨fact_leafListChain, fact_defaultWidth⟩
+
 /-! ## Round trip: the value read back in PROTO encoding is the value set -/
 
 /-- Scalars: whatever the model's type options, a supported scalar converted to the native form
@@ -33,14 +67,14 @@ theorem C17_roundtrip_scalar (s : Scalar) (opts : List Nat) (h : scalarOK s = tr
   | int i =>
     simp only [scalarOK] at h
     simp only [roundTrip, toNative, toGnmi, newInt, wrapI64_of_isInt64 i h, norm]
-    have := tvInt_newInt i (widthOf opts) h
+    have := tvInt_newInt i (widthOf "intWidth" opts) h
     simp only [newInt] at this
     rw [this]
   | uint n =>
     simp only [scalarOK] at h
     have hn : n % two64 = n := Nat.mod_eq_of_lt (by simpa [isUint64] using h)
     simp only [roundTrip, toNative, toGnmi, newUint, hn, norm]
-    have := tvUint_newUint n (widthOf opts) h
+    have := tvUint_newUint n (widthOf "uintWidth" opts) h
     simp only [newUint] at this
     rw [this]
   | bool b =>
@@ -289,15 +323,7 @@ theorem C17_int_encoding (i : Int) (opts : List Nat) (h : isInt64 i = true) (hw 
       natOfBE tv.bytes = i.natAbs ∧ tv.opts = [(modelWidth opts : Int), if i < 0 then 1 else 0] := by
   refine ⟨_, rfl, rfl, ?_, ?_⟩
   · simp only [newInt, wrapI64_of_isInt64 i h, natOfBE_natToBE]
-  · have hwd : wrapI32 (widthOf opts) = (modelWidth opts : Int) := by
-      cases opts with
-      | nil => simp only [widthOf, modelWidth, List.headD_nil]; exact wrapI32_of_range _ (by omega) (by omega)
-      | cons w r =>
-        simp only [widthOK, Bool.or_eq_true, decide_eq_true_eq] at hw
-        simp only [widthOf, modelWidth, List.headD_cons]
-        have h1 : wrapI64 (w : Int) = (w : Int) := by
-          apply wrapI64_of_isInt64; rw [isInt64_iff]; omega
-        rw [h1]; exact wrapI32_of_range _ (by omega) (by omega)
+  · have hwd := widthOf_of_widthOK "intWidth" fact_defaultWidth.1 opts hw
     simp only [newInt, wrapI64_of_isInt64 i h, hwd, negFlag]
 
 /-! ## JSON: the right type and the right digits (RFC 7951 document) -/
@@ -309,10 +335,10 @@ theorem C17_json_int (i : Int) (opts : List Nat) (st : Bool) (h : isInt64 i = tr
       .ok (some (.scalar (if modelWidth opts > 32 then .str (asciiBytes (fmtInt i)) else .num i))) := by
   obtain ⟨tv, htn, hty, _, hopts⟩ := C17_int_encoding i opts h hw
   have hv : tvInt tv = i := by
-    have := tvInt_newInt i (widthOf opts) h
+    have := tvInt_newInt i (widthOf "intWidth" opts) h
     simp only [toNative, wrapI64_of_isInt64 i h] at htn
     cases htn; exact this
-  simp only [jsonOf, htn, jsonLeaf, hty, hopts, hv]
+  simp only [jsonOf, htn, jsonLeaf, hty, hopts, hv, isWide_int]
   by_cases hgt : modelWidth opts > 32
   · have : ((modelWidth opts : Nat) : Int) > 32 := by omega
     simp [hgt, this]
@@ -324,19 +350,11 @@ theorem C17_json_uint (n : Nat) (opts : List Nat) (st : Bool) (h : isUint64 n = 
     jsonOf (.scalar (.uint n)) opts st =
       .ok (some (.scalar (if modelWidth opts > 32 then .str (asciiBytes (fmtNat n)) else .num n))) := by
   have hn : n % two64 = n := Nat.mod_eq_of_lt (by simpa [isUint64] using h)
-  have hv := tvUint_newUint n (widthOf opts) h
-  have hwd : wrapI32 (widthOf opts) = (modelWidth opts : Int) := by
-    cases opts with
-    | nil => simp only [widthOf, modelWidth, List.headD_nil]; exact wrapI32_of_range _ (by omega) (by omega)
-    | cons w r =>
-      simp only [widthOK, Bool.or_eq_true, decide_eq_true_eq] at hw
-      simp only [widthOf, modelWidth, List.headD_cons]
-      have h1 : wrapI64 (w : Int) = (w : Int) := by
-        apply wrapI64_of_isInt64; rw [isInt64_iff]; omega
-      rw [h1]; exact wrapI32_of_range _ (by omega) (by omega)
+  have hv := tvUint_newUint n (widthOf "uintWidth" opts) h
+  have hwd := widthOf_of_widthOK "uintWidth" fact_defaultWidth.2.1 opts hw
   simp only [jsonOf, toNative, hn, jsonLeaf]
   simp only [newUint, tvUint, natOfBE_natToBE, bigUint64_of_uint64 n h] at hv ⊢
-  simp only [hwd, List.length_cons, List.length_nil, List.headD_cons]
+  simp only [hwd, List.length_cons, List.length_nil, List.headD_cons, isWide_uint]
   by_cases hgt : modelWidth opts > 32
   · have : ((modelWidth opts : Nat) : Int) > 32 := by omega
     simp [hgt, this]
@@ -429,7 +447,7 @@ theorem C17_json_leaflist_int (xs : List Int) (opts : List Nat) (st : Bool) (hne
   have hv := tvLLInt_newLLInt xs (llWidth (opts.headD 0 % 256)) h
   simp only [jsonOf, toNative, handleLeafList_ints _ _ hne, jsonLeaf]
   simp only [newLLInt, llWidth_of_widthOK opts hw] at hv ⊢
-  simp only [hv]
+  simp only [hv, isWide_llint]
   by_cases hgt : modelWidth opts > 32
   · have : ((modelWidth opts : Nat) : Int) > 32 := by omega
     simp [hgt, this]
@@ -445,7 +463,7 @@ theorem C17_json_leaflist_uint (xs : List Nat) (opts : List Nat) (st : Bool) (hn
   have hv := tvLLUint_newLLUint xs (llWidth (opts.headD 0 % 256)) h
   simp only [jsonOf, toNative, handleLeafList_uints _ _ hne, jsonLeaf]
   simp only [newLLUint, llWidth_of_widthOK opts hw] at hv ⊢
-  simp only [hv]
+  simp only [hv, isWide_lluint]
   by_cases hgt : modelWidth opts > 32
   · have : ((modelWidth opts : Nat) : Int) > 32 := by omega
     simp [hgt, this]
